@@ -718,10 +718,67 @@ def translate_source(text):
     return header + "\n\n".join(mods) + "\n", info
 
 
+def translate_newton(text):
+    """One iteration of NewtonSolve (the loop body without the convergence test) as a closed expression."""
+    text = strip_comments(text)
+    params, body = function_body(text, "NewtonSolve")
+    names = [p.strip().split()[-1] for p in params.split(",")]
+    if names != ["lambda", "C_0", "C_1", "C_2"]:
+        raise TranslateError("signature of NewtonSolve changed: %s" % params)
+    m = re.search(r"\bfor\s*\([^)]*\)\s*\{", body)
+    if not m:
+        raise TranslateError("NewtonSolve: loop not found")
+    depth, k = 0, m.end() - 1
+    while k < len(body):
+        if body[k] == "{":
+            depth += 1
+        elif body[k] == "}":
+            depth -= 1
+            if depth == 0:
+                break
+        k += 1
+    inner = body[m.end():k]
+    inner, nbreak = re.subn(r"if\s*\(\s*fabsf\(.*\)\s*\)\s*break\s*;", "", inner)
+    if nbreak != 1:
+        raise TranslateError("NewtonSolve: expected exactly one convergence test")
+    env = {n: n for n in names}
+
+    def pr(e):
+        if e[0] == "num":
+            f = parse_number(e[1])
+            if f.denominator != 1:
+                raise TranslateError("NewtonSolve: non-integer literal")
+            return "%d" % int(f)
+        if e[0] == "var":
+            if e[1] not in env:
+                raise TranslateError("NewtonSolve: use of %s before assignment" % e[1])
+            return env[e[1]]
+        if e[0] == "neg":
+            return "(- %s)" % pr(e[1])
+        if e[0] == "bin":
+            return "(%s %s %s)" % (pr(e[2]), e[1], pr(e[3]))
+        raise TranslateError("NewtonSolve: expression outside the grammar")
+
+    for st in Parser(tokenize(inner)).block():
+        if st[0] == "nop":
+            continue
+        if st[0] != "assign" or st[2] != "=" or len(st[1]) != 1 or st[1][0][0] != "var":
+            raise TranslateError("NewtonSolve: statement outside the grammar")
+        env[st[1][0][1]] = pr(st[3])
+    return ("Module Newton.\nLocal Open Scope R_scope.\n"
+            "(* NewtonSolve: the value of `lambda` after one pass through the loop body *)\n"
+            "Definition step (lambda C_0 C_1 C_2 : R) : R := %s.\nEnd Newton.\n" % env["lambda"])
+
+
 def translate(ctx):
     with open(os.path.join(REPO, SRC)) as fh:
         text = fh.read()
     out, _info = translate_source(text)
+    try:
+        out += "\n" + translate_newton(text)      # dead code in the library: never fatal
+    except TranslateError as e:
+        out += "\n(* NewtonSolve not translated: %s *)\n" % str(e).replace("*", "x")
+        ctx.notes.setdefault("coverage_extra", {})["newton_solve_translation"] = "failed: %s" % e
     changed = ctx.write_gen("Gen/RmsdFormulas.v", out)
     ctx.notes.setdefault("coverage_extra", {})["translator"] = "ok (%s)" % ("regenerated" if changed else "unchanged")
 
@@ -857,7 +914,11 @@ def gen_arrays(gen):
             X = (X - c) @ rotmat(rs.randn(3), ang) + c
         tg.append(X + off_t)
     ref = np.array(refs) + off_r
-    return np.array(tg).astype(np.float32), ref.astype(np.float32)
+    tg = np.array(tg)
+    if gen.get("swap"):          # exchange the labels of two atoms in the target (for md.lprmsd with a permutation group)
+        i, j = gen["swap"]
+        tg[:, [i, j]] = tg[:, [j, i]]
+    return tg.astype(np.float32), ref.astype(np.float32)
 
 
 def kabsch(a, b):
@@ -956,11 +1017,24 @@ def gen_ops(rng, gen, quick, full=True):
     ops.append({"op": "superpose", "frame": fr(), "parallel": rng.random() < 0.5, "atom_indices": A2,
                 "ref_atom_indices": sub_indices(rng, m, k)})
     if n == m:
-        ops.append({"op": "rmsf", "frame": fr(), "parallel": rng.random() < 0.5, "ref": "other"})
+        f1 = fr()
+        j0 = len(ops)
+        ops.append({"op": "rmsf", "frame": f1, "parallel": True, "ref": "other"})
+        ops.append({"op": "rmsf", "frame": f1, "parallel": False, "ref": "other", "same_as": j0})   # parallel flag only
         ops.append({"op": "rmsf", "frame": rng.randrange(F), "parallel": rng.random() < 0.5, "ref": "self"})
-        if n >= 4:
-            two = sorted(rng.sample(range(n), 2))
-            ops.append({"op": "lprmsd", "frame": fr(), "parallel": True, "permute_groups": [[two[0]], [two[1]]]})
+        ops.append({"op": "rmsf", "frame": 0, "parallel": rng.random() < 0.5, "ref": "none"})   # pre-aligned: no rotation
+        if n >= 5:
+            # lprmsd with permutation groups that cannot permute anything (singletons) is the plain RMSD of the selection
+            ng = rng.randint(1, min(3, n - 3))
+            singles = [[a] for a in sorted(rng.sample(range(n), ng))]
+            f2 = fr()
+            j1 = len(ops)
+            ops.append({"op": "lprmsd", "frame": f2, "parallel": True, "permute_groups": singles})
+            ops.append({"op": "lprmsd", "frame": f2, "parallel": False, "permute_groups": singles, "same_as": j1})
+            sel = rng.sample(range(n), rng.randint(4, n))          # any order, the call sorts and deduplicates
+            inside = [[a] for a in sorted(rng.sample(sel, rng.randint(1, min(2, len(sel) - 3))))]
+            ops.append({"op": "lprmsd", "frame": fr(), "parallel": rng.random() < 0.5, "atom_indices": sel + sel[:1],
+                        "permute_groups": inside})
     return ops
 
 
@@ -1042,6 +1116,12 @@ def build_cases(ctx):
         add({"kind": "grid", "n": n, "m": n, "F": rng.randint(1, 3), "G": 1, "lim": rng.choice([3, 6, 12]), "unit": 8},
             ops=[{"op": "rmsd", "frame": 0, "parallel": True}, {"op": "rmsd", "frame": 0, "parallel": False},
                  {"op": "superpose", "frame": 0, "parallel": True}])
+    # md.lprmsd must undo an exchange of two atoms that are declared permutable
+    for _ in range(6 if quick else 80):
+        n = rng.randint(7, 20)
+        i, j = sorted(rng.sample(range(n), 2))
+        gen = {"kind": "near_identical", "n": n, "m": n, "F": rng.randint(1, 3), "G": 1, "scale": 1.0, "offset": 2.0, "swap": [i, j]}
+        add(gen, ops=[{"op": "lprmsd", "frame": 0, "parallel": rng.random() < 0.5, "permute_groups": [[i, j]], "swap": [i, j]}])
     # precentered=True after short histories (cached traces must be dropped or stay valid)
     for _ in range(30 if quick else 600):
         n = rng.randint(4, 24)
@@ -1251,6 +1331,9 @@ def check_cases(ctx, cases, arrays, out, errors):
             if op["op"] in ("rmsd", "lprmsd"):
                 if op["op"] == "lprmsd":
                     A = B = sorted(set(A))
+                    if op.get("swap"):       # the best labelling exchanges the two permutable atoms back
+                        i_, j_ = op["swap"]
+                        A = [j_ if x == i_ else i_ if x == j_ else x for x in A]
                 for f in range(F):
                     a, b = target[f][A], (target if op.get("ref") == "self" else ref)[fr][B]
                     msd, R, ca, cb = kabsch(a, b)
@@ -1313,7 +1396,10 @@ def check_cases(ctx, cases, arrays, out, errors):
                 for f in range(F):
                     a, b = target[f][A], refarr[fr][B]
                     msd, R, ca, cb = kabsch(a, b)
-                    kmin = min(kmin, rotation_conditioning(a, b))
+                    if op.get("ref") == "none":      # documented as "trajectory aligned beforehand": centred, not rotated
+                        R = np.eye(3)
+                    else:
+                        kmin = min(kmin, rotation_conditioning(a, b))
                     X.append((a.astype(np.float64) - ca) @ R)
                     Rs.append(R)
                 X = np.array(X)
@@ -1545,7 +1631,22 @@ def run_cases(ctx, cases, batch=60):
             oracle_selfcheck(ctx, chunk, arrays)
 
 
+def newton_tie(ctx):
+    """Outside the obligations: is one pass through NewtonSolve's loop body (regenerated) the Newton map of the model?
+    NewtonSolve is not called by msdFromMandG, so a difference is recorded in the evidence but raises no alarm."""
+    text = ("From Coq Require Import Reals Lra.\nRequire Import MD.Gen.RmsdFormulas MD.Rmsd.Solver.\nLocal Open Scope R_scope.\n"
+            "Lemma newton_tie : forall a2 a1 a0 t, P' a2 a1 t <> 0 -> Newton.step t a0 a1 a2 = N a2 a1 a0 t.\n"
+            "Proof. intros a2 a1 a0 t H. unfold Newton.step, N, P, P' in *. field. intro E. apply H. rewrite <- E. ring. Qed.\n")
+    try:
+        rc, out = ctx.coqc_text("newton_tie", text, timeout=120)
+        ok = rc == 0
+    except Exception:
+        ok = False
+    ctx.notes.setdefault("coverage_extra", {})["newton_solve_source_is_model_newton_map"] = ok
+
+
 def correspond(ctx):
+    newton_tie(ctx)
     cases = build_cases(ctx)
     ctx.log("cases:", len(cases), "ops:", sum(len(c["ops"]) for c in cases))
     run_cases(ctx, cases)
